@@ -64,7 +64,8 @@ void nsim_op_begin (const char *name);
 void nsim_op_end (void);
 int  nsim_op_sleeps (void);      /* blocking kernel waits by this fibre since op_begin */
 int  nsim_op_atomics (void);     /* atomic operations by this fibre since op_begin */
-int  nsim_op_idle_jumps (void);  /* clock jumps that were needed to wake this fibre since op_begin */
+int  nsim_op_idle_jumps (void);
+int64_t nsim_op_last_timed_block_ns (void); /* virtual time at which this fibre last began a TIMED blocking wait in this op, -1 none */  /* clock jumps that were needed to wake this fibre since op_begin */
 
 /* ---- choices ---- */
 int  nsim_choose (int kind, int n);   /* run-time choice, recorded */
